@@ -40,6 +40,27 @@ func (ul *Upstreams) UnmarshalFlag(endpoint string) error {
 	return nil
 }
 
+// UnmarshalYAML will read the upstreams from a YAML list of URLs, each in the same syntax
+// as the command line flag
+func (ul *Upstreams) UnmarshalYAML(unmarshal func(interface{}) error) error {
+	stuff := make([]string, 0)
+	if err := unmarshal(&stuff); err != nil {
+		return errors.WithStack(err)
+	}
+
+	res := make([]Upstream, 0)
+	for _, s := range stuff {
+		conn, err := unmarshalUpstream(s)
+		if err != nil {
+			return errors.WithStack(err)
+		}
+		res = append(res, conn)
+	}
+
+	ul.Data = res
+	return nil
+}
+
 func unmarshalUpstream(endpoint string) (Upstream, error) {
 	address, err := addr.ParseAddress(endpoint)
 	err = errors.Wrapf(err, "Invalid URL: %s", endpoint)
